@@ -48,6 +48,7 @@ def _case(draw):
         c['radius'] = draw(st.floats(0.005, 10.0))
         c['q'] = draw(st.floats(0.5, 100.0))
         c['lee_mix'] = 10.0 ** draw(st.floats(-16.0, -6.0))
+        c['range_move'] = [10.0 ** draw(st.floats(-0.5, 2.0)), 10.0 ** draw(st.floats(-2.0, 0.5))]
     c['world'] = draw(S.world(layers=(2, 40), nwn=(2, 8), max_active=2, extras=(), mags=['transparent', 'mixed']))
     return c
 
@@ -164,87 +165,107 @@ def check(case):
             pass
         return out
 
-    # ---- hazes ----------------------------------------------------------------------------------
-    for nm, b in (('top', case['top']), ('bottom', case['bottom'])):
-        if b[0] == 'unset':
-            out.cls('bound:unset')
-        out.cls('%s:%s' % (nm, b[0]))
-    # level intervals per layer (surface first): layer l spans [Lv[l+1], Lv[l]] in pressure
-    lay_lo, lay_hi = Lv[1:], Lv[:-1]
-    if kind == 'flat':
-        ends = (float(Lv.min()), float(Lv.max()))
-    else:
-        ends = (float(Pl.min()), float(Pl.max()))
-    t_eff = top if top > 0 else ends[0]
-    b_eff = bot if bot > 0 else ends[1]
-    inverted = t_eff > b_eff
-    wlo, whi = min(t_eff, b_eff), max(t_eff, b_eff)
-    if inverted:
-        out.cls('window:inverted')
-    elif wlo > ends[0] and whi < ends[1]:
-        out.cls('window:inside')
-    eps = 1e-12
-    wholly_out = (lay_lo >= whi * (1 + eps)) | (lay_hi <= wlo * (1 - eps))
-    out.applies('haze-zero-outside')
-    if np.any(sig[wholly_out] != 0.0):
-        l = int(np.where(np.any(sig != 0.0, axis=1) & wholly_out)[0][0])
-        out.fail('haze-zero-outside@%s,top=%s,bottom=%s' % (kind, case['top'][0], case['bottom'][0]),
-                 'layer %d [%.4g,%.4g] Pa is outside the window [%.4g,%.4g] but carries %r'
-                 % (l, lay_lo[l], lay_hi[l], wlo, whi, float(sig[l].max())))
-    if np.any(sig < 0) or not np.all(np.isfinite(sig)):
-        out.fail('haze-finite-nonnegative@' + kind, 'min %r' % float(np.nanmin(sig)))
-    if kind == 'lee':
-        a = case['radius']
-        lam = 10000.0 / wn
-        x = 2.0 * math.pi * a / lam
-        qext = 5.0 / (case['q'] * x ** (-4.0) + x ** 0.2)
-        want = qext * math.pi * (a * 1e-6) ** 2 * case['lee_mix']
-        # a declared bound exactly on a layer pressure is not judged (either side is fine);
-        # an UNSET bound means the whole atmosphere, end layer included
-        lo_ok = (Pl >= wlo) if (top < 0 and not inverted) else (Pl >= wlo * (1 + eps))
-        hi_ok = (Pl <= whi) if (bot < 0 and not inverted) else (Pl <= whi * (1 - eps))
-        centre_in = lo_ok & hi_ok
-        if not inverted:
-            out.applies('lee-magnitude')
-            for l in np.where(centre_in)[0]:
-                if not close(sig[l], want, rtol=1e-10, atol=1e-300):
-                    out.fail('lee-magnitude@top=%s,bottom=%s' % (case['top'][0], case['bottom'][0]),
-                             'layer %d (P=%.4g in window [%.4g,%.4g]) carries %s want %s' % (l, Pl[l], wlo, whi, sig[l][:2], want[:2]))
+    nt = [False]
+
+    def judge_haze(sig, Pl, Lv, sfx):
+        # ---- hazes ----------------------------------------------------------------------------------
+        for nm, b in (('top', case['top']), ('bottom', case['bottom'])):
+            if b[0] == 'unset':
+                out.cls('bound:unset')
+            out.cls('%s:%s' % (nm, b[0]))
+        # level intervals per layer (surface first): layer l spans [Lv[l+1], Lv[l]] in pressure
+        lay_lo, lay_hi = Lv[1:], Lv[:-1]
+        if kind == 'flat':
+            ends = (float(Lv.min()), float(Lv.max()))
+        else:
+            ends = (float(Pl.min()), float(Pl.max()))
+        t_eff = top if top > 0 else ends[0]
+        b_eff = bot if bot > 0 else ends[1]
+        inverted = t_eff > b_eff
+        wlo, whi = min(t_eff, b_eff), max(t_eff, b_eff)
+        if inverted:
+            out.cls('window:inverted')
+        elif wlo > ends[0] and whi < ends[1]:
+            out.cls('window:inside')
+        eps = 1e-12
+        wholly_out = (lay_lo >= whi * (1 + eps)) | (lay_hi <= wlo * (1 - eps))
+        out.applies('haze-zero-outside')
+        if np.any(sig[wholly_out] != 0.0):
+            l = int(np.where(np.any(sig != 0.0, axis=1) & wholly_out)[0][0])
+            out.fail(('haze-zero-outside@%s,top=%s,bottom=%s' % (kind, case['top'][0], case['bottom'][0])) + sfx,
+                     'layer %d [%.4g,%.4g] Pa is outside the window [%.4g,%.4g] but carries %r'
+                     % (l, lay_lo[l], lay_hi[l], wlo, whi, float(sig[l].max())))
+        if np.any(sig < 0) or not np.all(np.isfinite(sig)):
+            out.fail('haze-finite-nonnegative@' + kind, 'min %r' % float(np.nanmin(sig)))
+        if kind == 'lee':
+            a = case['radius']
+            lam = 10000.0 / wn
+            x = 2.0 * math.pi * a / lam
+            qext = 5.0 / (case['q'] * x ** (-4.0) + x ** 0.2)
+            want = qext * math.pi * (a * 1e-6) ** 2 * case['lee_mix']
+            # a declared bound exactly on a layer pressure is not judged (either side is fine);
+            # an UNSET bound means the whole atmosphere, end layer included
+            lo_ok = (Pl >= wlo) if (top < 0 and not inverted) else (Pl >= wlo * (1 + eps))
+            hi_ok = (Pl <= whi) if (bot < 0 and not inverted) else (Pl <= whi * (1 - eps))
+            centre_in = lo_ok & hi_ok
+            if not inverted:
+                out.applies('lee-magnitude')
+                for l in np.where(centre_in)[0]:
+                    if not close(sig[l], want, rtol=1e-10, atol=1e-300):
+                        out.fail(('lee-magnitude@top=%s,bottom=%s' % (case['top'][0], case['bottom'][0])) + sfx,
+                                 'layer %d (P=%.4g in window [%.4g,%.4g]) carries %s want %s' % (l, Pl[l], wlo, whi, sig[l][:2], want[:2]))
+                        break
+            out.applies('lee-all-or-nothing')
+            for l in range(nl):
+                if np.any(sig[l] != 0.0) and not close(sig[l], want, rtol=1e-10, atol=1e-300):
+                    out.fail(('lee-all-or-nothing') + sfx, 'layer %d carries neither 0 nor the declared law' % l)
                     break
-        out.applies('lee-all-or-nothing')
-        for l in range(nl):
-            if np.any(sig[l] != 0.0) and not close(sig[l], want, rtol=1e-10, atol=1e-300):
-                out.fail('lee-all-or-nothing', 'layer %d carries neither 0 nor the declared law' % l)
-                break
-        out.nontrivial = bool((not inverted) and wlo > ends[0] and whi < ends[1] and 0 < centre_in.sum() < nl)
-        return out
-    # grey haze
-    mix = case['mix']
-    ov = np.maximum(0.0, np.minimum(np.log10(whi), np.log10(lay_hi)) - np.maximum(np.log10(wlo), np.log10(lay_lo)))
-    width = np.log10(lay_hi) - np.log10(lay_lo)
-    overlapping = ov > 1e-9 * width
-    full = ov >= width * (1 - 1e-9)
-    out.applies('flat-grey')
-    if not np.all(sig == sig[:, :1]):
-        out.fail('flat-grey', 'grey haze opacity depends on wavenumber')
-    out.applies('flat-bounded')
-    if np.any(sig > mix * (1 + 1e-12)):
-        out.fail('flat-bounded', 'opacity %r above the declared %r' % (float(sig.max()), mix))
-    out.applies('flat-overlapping-positive')
-    if np.any(sig[overlapping, 0] <= 0.0):
-        l = int(np.where(overlapping & (sig[:, 0] <= 0))[0][0])
-        out.fail('flat-overlapping-positive@top=%s,bottom=%s' % (case['top'][0], case['bottom'][0]),
-                 'layer %d overlaps the window by %.3g dex but carries no opacity' % (l, ov[l]))
-    if np.any(full):
-        out.applies('flat-magnitude')
-        if not close(sig[full, 0], mix * np.ones(int(full.sum())), rtol=1e-9):
-            out.fail('flat-magnitude@top=%s,bottom=%s' % (case['top'][0], case['bottom'][0]),
-                     'a layer wholly inside the window carries %s, declared %r' % (sig[full, 0][:3], mix))
-    elif np.any(overlapping):
-        out.applies('flat-magnitude')
-        l = int(np.argmax(ov))
-        if not close(sig[l, 0], mix, rtol=1e-9):
-            out.fail('flat-magnitude@largest-overlap', 'layer of largest overlap carries %r, declared %r' % (sig[l, 0], mix))
-    partial = overlapping & ~full
-    out.nontrivial = bool((not inverted) and wlo > ends[0] and whi < ends[1] and np.any(partial))
+            nt[0] = nt[0] or bool((not inverted) and wlo > ends[0] and whi < ends[1] and 0 < centre_in.sum() < nl)
+            return
+        # grey haze
+        mix = case['mix']
+        ov = np.maximum(0.0, np.minimum(np.log10(whi), np.log10(lay_hi)) - np.maximum(np.log10(wlo), np.log10(lay_lo)))
+        width = np.log10(lay_hi) - np.log10(lay_lo)
+        overlapping = ov > 1e-9 * width
+        full = ov >= width * (1 - 1e-9)
+        out.applies('flat-grey')
+        if not np.all(sig == sig[:, :1]):
+            out.fail(('flat-grey') + sfx, 'grey haze opacity depends on wavenumber')
+        out.applies('flat-bounded')
+        if np.any(sig > mix * (1 + 1e-12)):
+            out.fail(('flat-bounded') + sfx, 'opacity %r above the declared %r' % (float(sig.max()), mix))
+        out.applies('flat-overlapping-positive')
+        if np.any(sig[overlapping, 0] <= 0.0):
+            l = int(np.where(overlapping & (sig[:, 0] <= 0))[0][0])
+            out.fail(('flat-overlapping-positive@top=%s,bottom=%s' % (case['top'][0], case['bottom'][0])) + sfx,
+                     'layer %d overlaps the window by %.3g dex but carries no opacity' % (l, ov[l]))
+        if np.any(full):
+            out.applies('flat-magnitude')
+            if not close(sig[full, 0], mix * np.ones(int(full.sum())), rtol=1e-9):
+                out.fail(('flat-magnitude@top=%s,bottom=%s' % (case['top'][0], case['bottom'][0])) + sfx,
+                         'a layer wholly inside the window carries %s, declared %r' % (sig[full, 0][:3], mix))
+        elif np.any(overlapping):
+            out.applies('flat-magnitude')
+            l = int(np.argmax(ov))
+            if not close(sig[l, 0], mix, rtol=1e-9):
+                out.fail(('flat-magnitude@largest-overlap') + sfx, 'layer of largest overlap carries %r, declared %r' % (sig[l, 0], mix))
+        partial = overlapping & ~full
+        nt[0] = nt[0] or bool((not inverted) and wlo > ends[0] and whi < ends[1] and np.any(partial))
+        return
+
+    judge_haze(sig, Pl, Lv, '')
+    # history: the pressure range of the SAME built model is moved through its fitting parameters (same layer count) and
+    # the model evaluated again: the haze must sit in its declared window on the levels as they now are
+    out.applies('haze-range-moved')
+    try:
+        mv = case.get('range_move', [30.0, 10.0])
+        m['atm_max_pressure'] = float(m['atm_max_pressure']) * mv[0]
+        m['atm_min_pressure'] = float(m['atm_min_pressure']) * mv[1]
+        with np.errstate(all='ignore'):
+            cut(out, 'model@range-moved', m.model)
+        judge_haze(np.asarray(contrib.sigma_xsec, dtype=float), np.array(m.pressureProfile, dtype=float, copy=True),
+                   np.array(m.pressure.pressure_profile_levels, dtype=float, copy=True), ',range-moved')
+    except CutError:
+        pass
+    out.nontrivial = nt[0]
     return out
